@@ -97,8 +97,13 @@ class Particle:
                 return []
             if value.type is not ValueType.ELEMENT or not value.is_array:
                 raise ValueError('{} must be an element array!')
+            # The name is stored separately, leaving a copy in the options would override a rename.
             return [
-                Operator(ele.name, ele.pop('functionName').val_str, copy.deepcopy(dict(ele)))
+                Operator(ele.name, ele.pop('functionName').val_str, {
+                    key: copy.deepcopy(attr)
+                    for key, attr in ele.items()
+                    if key != 'name'
+                })
                 for ele in value.iter_elem()
             ]
 
@@ -124,6 +129,7 @@ class Particle:
             options = {
                 value.name.casefold(): copy.deepcopy(value)
                 for value in elem.values()
+                if value.name.casefold() != 'name'
             }
 
             systems[elem.name.casefold()] = Particle(
